@@ -56,14 +56,14 @@ def wrap64 (x : Int) : Int := (x + 2 ^ 63) % 2 ^ 64 - 2 ^ 63
 def u64 (x : Int) : Nat := (x % 2 ^ 64).toNat
 
 /-- `scales[i]` (0 outside the table: never used by the writer, a panic in the reader). -/
-def scaleAt (i : Nat) : Int := ((codecScales[i]?).getD 0 : Nat)
+def codecScaleAt (i : Nat) : Int := ((codecScales[i]?).getD 0 : Nat)
 
 /-- `scale(v)`: the largest table index whose scale divides `v` (Go `%` on int64). -/
-def scaleDown (v : Int) : Nat → Nat
-  | 0 => if v.tmod (scaleAt 0) = 0 then 0 else codecScales.length - 1
-  | i + 1 => if v.tmod (scaleAt (i + 1)) = 0 then i + 1 else scaleDown v i
+def codecScaleDown (v : Int) : Nat → Nat
+  | 0 => if v.tmod (codecScaleAt 0) = 0 then 0 else codecScales.length - 1
+  | i + 1 => if v.tmod (codecScaleAt (i + 1)) = 0 then i + 1 else codecScaleDown v i
 
-def scaleOf (v : Int) : Nat := scaleDown v (codecScales.length - 1)
+def codecScaleOf (v : Int) : Nat := codecScaleDown v (codecScales.length - 1)
 
 /-- the wrapping deltas the writer stores: `v₀, v₁-v₀, …` -/
 def wdeltas (prev : Int) : List Int → List Int
@@ -71,13 +71,13 @@ def wdeltas (prev : Int) : List Int → List Int
   | v :: vs => wrap64 (v - prev) :: wdeltas v vs
 
 /-- `findScaleIdx`: the smallest `scale` over the stored deltas. -/
-def findScaleIdx (ds : List Int) : Nat := ds.foldl (fun idx d => min idx (scaleOf d)) (codecScales.length - 1)
+def findScaleIdx (ds : List Int) : Nat := ds.foldl (fun idx d => min idx (codecScaleOf d)) (codecScales.length - 1)
 
 /-- `findScaleIdx` as it was written: the smallest `scale` over the *values*. -/
-def findScaleIdxValues (vs : List Int) : Nat := vs.foldl (fun idx v => min idx (scaleOf v)) (codecScales.length - 1)
+def findScaleIdxValues (vs : List Int) : Nat := vs.foldl (fun idx v => min idx (codecScaleOf v)) (codecScales.length - 1)
 
 def encodeScaledWith (idx : Nat) (vs : List Int) : Bytes :=
-  UInt8.ofNat idx :: (wdeltas 0 vs).flatMap fun d => putUvarint (u64 (d.tdiv (scaleAt idx)))
+  UInt8.ofNat idx :: (wdeltas 0 vs).flatMap fun d => putUvarint (u64 (d.tdiv (codecScaleAt idx)))
 
 /-- `EncodeInt64sWithScale(dst, int64s)`: the bytes appended. -/
 def encodeScaled (vs : List Int) : Bytes := encodeScaledWith (findScaleIdx (wdeltas 0 vs)) vs
@@ -399,7 +399,9 @@ structure TrailerM where
   header : Option (List Bytes)      -- `ChunkMetaHeader` (nil / values)
 deriving DecidableEq, Repr
 
-def trailerSize : Nat := 6 * 8 + 8 * 8 + 2 + 0 + 2 + 1   -- unsafe.Sizeof arithmetic of table.go
+/-- `trailerSize` of table.go (unsafe.Sizeof arithmetic; a lower bound of every marshalled trailer,
+reported by the implementation and compared on every run). -/
+def trailerSize : Nat := 93
 
 /-- `codec.AppendString` -/
 def str16 (s : Bytes) : Bytes := be 2 s.length ++ s
